@@ -165,7 +165,7 @@ fn exh(ctx: &mut Ctx, sub: &str, start: u64, count: u64) {
 
 fn worker(ctx: &mut Ctx) {
     let (maxlen, cases) = match ctx.cfg.tier {
-        Tier::Quick => (3u32, 6_000u64),
+        Tier::Quick => (3u32, 20_000u64),
         Tier::Thorough => (4u32, 150_000u64),
     };
     let total = short_string_count(maxlen);
